@@ -145,7 +145,7 @@ PROPS['C06'] = dict(level='model_checking',
   outside='static_thread_pool with more than one worker, new_thread_context, timed contexts (C07)',
   harnesses=[
     H('mel_producer_vs_worker', 'C06_loops.cpp', ['h_worker', 'h_prod_then_stop'], 30, opts=dict(params=[1, 0]), desc='manual_event_loop: enqueue+stop racing the worker going idle: accepted item must run on the worker'),
-    H('mel_two_items_fifo', 'C06_loops.cpp', ['h_worker', 'h_prod01', 'h_stopper'], 40, opts=dict(params=[2, 1]), tier='thorough', timeout=2400, desc='manual_event_loop: two items from one producer run FIFO on the worker, then stop'),
+    H('mel_two_items_fifo', 'C06_loops.cpp', ['h_worker', 'h_prod01', 'h_stopper'], 40, opts=dict(params=[2, 1], prune=1), desc='manual_event_loop: two items from one producer run FIFO on the worker, then stop'),
     H('pool1_enqueue_vs_shutdown', 'C06_pool.cpp', ['h_worker', 'h_main'], 40, opts=dict(thread_of_body={'0': 0}), desc='static_thread_pool(1): schedule() then destruction racing the worker going idle'),
   ] + [SEQ('mel_seq_fifo_c%d' % c, 'C06_loops.cpp', 'h_seq_fifo', opts=dict(params=[c]), desc='manual_event_loop sequential: 3 items, stop() before run(), item %d cancelled' % (c - 1)) for c in range(4)]
     + [SEQ('trampoline_d%d_n%d' % (d, n), 'C06_loops.cpp', 'h_trampoline', opts=dict(params=[d, n], max_rec=12), desc='trampoline depth %d with %d nested schedules' % (d, n)) for d in (1, 2, 3) for n in (1, 4, 6)])
